@@ -6,9 +6,10 @@ From Mpir Require Import AllocDefs AllocProofs.
 Import ListNotations.
 Local Open Scope Z_scope.
 
-(* after every operation every variable is well formed: at least one limb allocated and the
+(* (scalar arguments are C unsigned longs: op_ok; init names a slot of the pool: op_inb)
+   after every operation every variable is well formed: at least one limb allocated and the
    allocation the C code requested is large enough for the value it then stores *)
-Theorem C04_wf_preserved : forall kara ops p, pool_ok p -> pool_ok (fst (run kara p ops)).
+Theorem C04_wf_preserved : forall kara ops p, Forall op_ok ops -> pool_ok p -> pool_ok (fst (run kara p ops)).
 Proof. exact run_pool_ok. Qed.
 Print Assumptions C04_wf_preserved.
 
@@ -24,13 +25,13 @@ Proof. exact step_exact_sizes. Qed.
 Print Assumptions C04_exact_sizes.
 
 (* the bytes held by the variables always equal the net effect of the allocator events *)
-Theorem C04_balance : forall kara ops p, pool_ok p ->
+Theorem C04_balance : forall kara ops p, Forall (op_inb (length p)) ops ->
   held (fst (run kara p ops)) = held p + net (snd (run kara p ops)).
 Proof. exact run_balance. Qed.
 Print Assumptions C04_balance.
 
 (* once every variable has been cleared the library holds no block *)
-Theorem C04_no_leak : forall kara n ops,
+Theorem C04_no_leak : forall kara n ops, Forall (op_inb n) ops ->
   held (fst (run kara (repeat None n) (ops ++ clear_all n))) = 0
   /\ net (snd (run kara (repeat None n) (ops ++ clear_all n))) = 0.
 Proof. exact run_no_leak. Qed.
